@@ -269,6 +269,80 @@ def polarity_flip(src, seed=0):
     ast.fix_missing_locations(tree)
     return ast.unparse(tree) + "\n"
 
+_KEYWORDS = None
+
+
+def _keyword_names():
+    """Every name that is passed by keyword anywhere in the repository (package,
+    tests, examples): a parameter of that name is never renamed."""
+    global _KEYWORDS
+    if _KEYWORDS is None:
+        import os
+        from ..engine import srcmodel
+        names = set()
+        for top in ("dagrt", "test", "examples", "doc"):
+            for dp, _dn, fn in os.walk(os.path.join(srcmodel.REPO_ROOT, top)):
+                for f in fn:
+                    if f.endswith(".py"):
+                        try:
+                            tree = ast.parse(open(os.path.join(dp, f)).read())
+                        except (SyntaxError, OSError):
+                            continue
+                        fmt = {id(k) for n in ast.walk(tree) if isinstance(n, ast.Call)
+                               and isinstance(n.func, ast.Attribute) and n.func.attr == "format"
+                               for k in n.keywords}
+                        data = f in ("function_registry.py", "builtins_python.py")
+                        for n in ast.walk(tree):
+                            if isinstance(n, ast.keyword) and n.arg and id(n) not in fmt:
+                                names.add(n.arg)
+                            # names bound through data (registry arg_names)
+                            if data and isinstance(n, ast.Constant) and isinstance(n.value, str) \
+                                    and n.value.isidentifier():
+                                names.add(n.value)
+        _KEYWORDS = names
+    return _KEYWORDS
+
+
+def rename_params(src, seed=0):
+    """Rename the positional parameters of every function and method that no
+    call in the repository passes by keyword."""
+    kw = _keyword_names()
+    tree = ast.parse(src)
+    module_names = {n.id for n in ast.walk(tree) if isinstance(n, ast.Name)} | \
+        {a.arg for n in ast.walk(tree) if isinstance(n, (ast.FunctionDef, ast.Lambda))
+         for a in n.args.args + n.args.kwonlyargs}
+
+    def process(body, in_class):
+        for i, n in enumerate(body):
+            if isinstance(n, (ast.FunctionDef, ast.AsyncFunctionDef)):
+                if any(isinstance(x, (ast.Global, ast.Nonlocal)) for x in ast.walk(n)):
+                    continue
+                params = [a.arg for a in n.args.posonlyargs + n.args.args]
+                # optional parameters are conventionally passed by keyword: public names
+                if n.args.defaults:
+                    params = params[:-len(n.args.defaults)]
+                if in_class and len(n.args.posonlyargs + n.args.args) > 0 and params and not any(
+                        isinstance(d, ast.Name) and d.id == "staticmethod" for d in n.decorator_list):
+                    params = params[1:]
+                # parameters of nested functions and lambdas keep their names
+                inner = {a.arg for x in ast.walk(n) if x is not n
+                         and isinstance(x, (ast.FunctionDef, ast.Lambda))
+                         for a in x.args.args + x.args.kwonlyargs}
+                mapping = {}
+                for q in params:
+                    new = f"{q}_p"
+                    if q in kw or q in inner or new in module_names or q.startswith("_"):
+                        continue
+                    mapping[q] = new
+                if mapping:
+                    body[i] = _Renamer(mapping).visit(n)
+            elif isinstance(n, ast.ClassDef):
+                process(n.body, True)
+
+    process(tree.body, False)
+    ast.fix_missing_locations(tree)
+    return ast.unparse(tree) + "\n"
+
 
 TWINS = {
     "unparse": lambda src, seed: unparse_roundtrip(src),
@@ -279,4 +353,5 @@ TWINS = {
     "swap": lambda src, seed: swap_independent(src, seed),
     "elseflip": lambda src, seed: else_flip(src, seed),
     "polarity": lambda src, seed: polarity_flip(src, seed),
+    "params": lambda src, seed: rename_params(src, seed),
 }
